@@ -341,6 +341,7 @@ def check(chk):
     _removal_always_removes(chk, repo)
     _light_player(chk, repo)
     _commands_reach_the_stack(chk, repo)
+    _default_fade_only_for_none(chk, repo)
 
     # ------------------------------------------------------------ BATCH-1
     g = repo.func(BL, "PlatformBatchLightSystem._send_update_batch")
@@ -953,6 +954,22 @@ def _commands_reach_the_stack(chk, repo):
                    detail=str(kw), construct=g.ident, text="Light.%s arguments" % name)
 
 
+def _default_fade_only_for_none(chk, repo):
+    """FADE-2 (default): the light's default fade stands in for a fade that was *not given* (None) - an explicit 0 means "at once".  In
+    Light.color and Light.remove_from_stack_by_key the assignment `fade_ms = self.default_fade_ms` is selected exactly by `fade_ms is None`."""
+    from sa.cfg import canon_set as _cs, canon_fact as _cf
+    from sa.helpers import positive as _pos
+    for name in ("color", "remove_from_stack_by_key"):
+        f = repo.func(LT, "Light." + name)
+        cfg = f.cfg()
+        st = [n for n in cfg.nodes if n.kind == "stmt" and isinstance(n.ast, ast.Assign) and src(n.ast.targets[0]) == "fade_ms" and src(n.ast.value) == "self.default_fade_ms"]
+        chk.need(st, "FADE-2", "Light.%s falls back to the light's default fade" % name, f)
+        for n in st:
+            got = {kv for kv in _pos(set(_cs(cfg.guards_at(n.id)))) if "fade_ms" in kv[0]}
+            chk.ob("FADE-2", "Light.%s takes the default fade exactly when no fade was given (None), not for an explicit 0" % name, got == _pos({_cf("fade_ms is None", True)}),
+                   f.where(n.ast), detail="default taken under %s" % sorted(got), construct=f.ident, text="default fade condition in " + name)
+
+
 def scan_exits_only_at_key(chk, rule, g, gcfg, h, name):
     """Every early exit (break / return) of a stack scan is taken at the key, so the entry with that key is always found."""
     for n in gcfg.nodes_where(lambda n: n.kind == "stmt" and isinstance(n.ast, (ast.Break, ast.Return))):
@@ -968,6 +985,7 @@ def scan_exits_only_at_key(chk, rule, g, gcfg, h, name):
 def battery():
     from sa.battery import M
     return [
+        M("explicit fade 0 replaced by the default on removal", LT, "            return\n\n        if fade_ms is None:\n            fade_ms = self.default_fade_ms\n\n        key = str(key)", "            return\n\n        if not fade_ms:\n            fade_ms = self.default_fade_ms\n\n        key = str(key)", "FADE-2"),
         M("remembered fade unpacked in the wrong order", LT, "        if self._last_fade_target and target_color == self._last_fade_target[2] and \\\n                (self._last_fade_target[3] < 0 or self._last_fade_target[3] < self.machine.clock.get_time()):\n", "        last_color, _, _, last_time = self._last_fade_target or (None, 0, None, 0)\n        if self._last_fade_target and target_color == last_color and \\\n                (last_time < 0 or last_time < self.machine.clock.get_time()):\n", "SUPP-1"),
         M("twin: remembered fade read through an unpacking", LT, "        if self._last_fade_target and target_color == self._last_fade_target[2] and \\\n                (self._last_fade_target[3] < 0 or self._last_fade_target[3] < self.machine.clock.get_time()):\n", "        _, _, last_color, last_time = self._last_fade_target or (None, 0, None, 0)\n        if self._last_fade_target and target_color == last_color and \\\n                (last_time < 0 or last_time < self.machine.clock.get_time()):\n", None),
         M("off on an empty stack is dropped", LT, "        del kwargs\n        self.color(color=self._off_color, fade_ms=fade_ms, priority=priority,", "        del kwargs\n        if not self.stack:\n            return\n        self.color(color=self._off_color, fade_ms=fade_ms, priority=priority,", "CMD-9"),
